@@ -597,10 +597,10 @@ func (w *kqueue) watchDirectoryFiles(dirPath string) error {
 			switch {
 			case errors.Is(err, unix.EACCES) || errors.Is(err, unix.EPERM):
 				cleanPath = filepath.Clean(path)
-			case errors.Is(err, os.ErrNotExist):
-				// Symlink to a path that doesn't exist, or the file was removed
-				// since the ReadDir(): neither is a reason to not watch the
-				// directory.
+			case errors.Is(err, os.ErrNotExist) || errors.Is(err, unix.ELOOP):
+				// Symlink to a path that doesn't exist or that loops, or the
+				// file was removed since the ReadDir(): neither is a reason to
+				// not watch the directory.
 				if _, err := os.Lstat(path); err != nil {
 					continue
 				}
